@@ -13,7 +13,12 @@ def run(name):
         subprocess.check_call(["git","-C","/repo","worktree","add","--detach","-q",wt,"HEAD"])
         a=subprocess.run(["git","-C",wt,"apply",patch],capture_output=True,text=True)
         if a.returncode!=0: return name,None,"patch does not apply: "+a.stderr[-300:]
-        c=subprocess.run(["/verif/bin/nfscheck","-prop","all","-root",wt,"-evidence",ev,"-known","/verif/known_findings.json"],env=ENV,capture_output=True,text=True)
+        for attempt in range(3):
+            c=subprocess.run(["/verif/bin/nfscheck","-prop","all","-root",wt,"-evidence",ev,"-known","/verif/known_findings.json"],env=ENV,capture_output=True,text=True)
+            # a killed or crashed checker (e.g. out of memory when many run at once) must not read as 'nothing fired'
+            if c.returncode in (0,1,2) and len(re.findall(r"^\[C\d+ ",c.stdout,re.M))>=40: break
+        else:
+            return name,None,"checker did not complete (exit %s): %s"%(c.returncode,(c.stderr or c.stdout)[-300:])
         fired=sorted(set(re.findall(r"VIOLATION property=(C\d+)",c.stdout)))
         rules=sorted(set(m for m in re.findall(r"^  violated (C\d+\.R\w+) (\S+)",c.stdout,re.M)))
         fatal=re.findall(r"FATAL.*",c.stdout+c.stderr)
